@@ -20,4 +20,18 @@ package badger
 //@   ghost var rm *record.Meta = nil
 //@   at after (*Meta).CheckPermission ghost rm = r.meta
 //@   at send Next assert ok && l0 == local && i0 == internal && m0 == rm
+// C02: validity, key prefix and content match guard every record that is sent
+//@   ghost var valid bool = false
+//@   ghost var vm *record.Meta = nil
+//@   ghost var keyOK bool = false
+//@   ghost var recOK bool = false
+//@   ghost var rq *query.Query = nil
+//@   at after (*Meta).CheckValidity ghost valid = ret0
+//@   at after (*Meta).CheckValidity ghost vm = arg0
+//@   at after (*Iterator).ValidForPrefix ghost keyOK = ret0
+//@   at call (*Iterator).ValidForPrefix assert arg1 == prefix
+//@   at after (*Query).MatchesRecord ghost recOK = ret0
+//@   at after (*Query).MatchesRecord ghost rq = arg0
+//@   at call (*Query).MatchesRecord assert typeIs(arg1, *record.Wrapper) && asType(arg1, *record.Wrapper) == r
+//@   at send Next assert valid && vm == rm && keyOK && recOK && rq == q
 //@   loop 0 invariant true
